@@ -157,7 +157,9 @@ def run_case(case: dict) -> dict:
         env.pop("PYTHONUNBUFFERED", None)
         if case["unbuffered"]:
             env["PYTHONUNBUFFERED"] = "1"
-        show = "no" if any(t["fail"] for t in case["tasks"]) else "all"
+        if case.get("picky_real"):
+            env["C14_PICKY_STREAMS"] = "1"   # the worker installs stream objects of its own that refuse text containing U+26D4
+        show = "no" if any(t["fail"] for t in effective_tasks(case)) else "all"
         r = subprocess.run([common.PY, str(WORKER), str(d / "p"), case["method"], show, str(d / "res.json")],
                            stdin=subprocess.DEVNULL, capture_output=True, env=env, cwd=str(d), timeout=300)
         if not (d / "res.json").exists():
@@ -196,6 +198,26 @@ def extract(text: str) -> list:
 # C14: oracle — token accounting straight from the property statement
 # ------------------------------------------------------------------------------------------------
 
+def effective_tasks(case: dict) -> list:
+    """What the tasks get to write. Normally everything. With `picky_real` (the caller's own sys.stdout / sys.stderr objects raise
+    OSError for text containing U+26D4) under tee-sys a Python-level write of such text raises in the pass-through to the real
+    stream: the text was written by the task and is captured (it belongs into the section), it does not reach the real stream, the
+    task fails there."""
+    if not (case.get("picky_real") and case["method"] == "tee-sys"):
+        return case["tasks"]
+    out = []
+    for t in case["tasks"]:
+        ws, fail = [], t["fail"]
+        for w in t["writes"]:
+            if is_py(w) and "\u26d4" in w["text"]:
+                ws.append(dict(w, end="" if w["kind"] in ("print", "eprint") else w["end"], sec_only=True))
+                fail = True
+                break
+            ws.append(w)
+        out.append(dict(t, writes=ws, fail=fail))
+    return out
+
+
 def oracle_c14(case: dict, obs: dict) -> list:
     """Returns [(kind, message)]. Every payload exactly once, in the place the capture method prescribes, in
     write order, unmodified; nothing in another task's section; no empty sections."""
@@ -203,7 +225,7 @@ def oracle_c14(case: dict, obs: dict) -> list:
     if "raised" in obs:
         return [("returns", f"pytask.build raised {obs['raised']}")]
     method = case["method"]
-    by_name = {t["name"]: t for t in case["tasks"]}
+    by_name = {t["name"]: t for t in effective_tasks(case)}
     reps = {r["name"]: r for r in obs["reports"]}
     if set(reps) != set(by_name) or len(obs["reports"]) != len(by_name):
         bad.append(("reports", f"reports for {sorted(reps)} but tasks {sorted(by_name)}"))
@@ -243,7 +265,7 @@ def oracle_c14(case: dict, obs: dict) -> list:
         want_seq, py_seq, fd_seq = [], [], []
         for name in order:
             for w in by_name[name]["writes"]:
-                if w["id"] is None or is_err(w) != (chan == "stderr"):
+                if w["id"] is None or is_err(w) != (chan == "stderr") or w.get("sec_only"):
                     continue
                 reaches = method == "no" or (method == "tee-sys") or (method == "sys" and not is_py(w))
                 if reaches:
@@ -326,7 +348,7 @@ def model_c14(drv, case: dict, obs: dict) -> list:
 
 
 def canon_c14(case: dict) -> dict:
-    return {"m": case["method"], "t": [[[w["kind"], w["text"], w["end"]] for w in t["writes"]] + [t["fail"]] for t in case["tasks"]]}
+    return {"m": case["method"], "a": bool(case.get("picky_real")), "t": [[[w["kind"], w["text"], w["end"]] for w in t["writes"]] + [t["fail"]] for t in case["tasks"]]}
 
 
 def nontrivial_c14(case: dict) -> bool:
@@ -364,6 +386,13 @@ def corpus_c14() -> list:
     for i, m in enumerate(METHODS):
         for unb in (True, False):
             out.append({"idx": -1 - i, "tasks": base, "method": m, "hashseed": 3 + i, "unbuffered": unb})
+    # tee-sys while the caller's real stream objects raise on some text: what the task wrote is still captured
+    raising = [
+        {"name": "task_t0", "fail": False, "writes": [w("print", 1, "plain", "\n"), w("owrite", 2, "\u26d4 cannot be passed on"), w("print", 3, "never written", "\n")]},
+        {"name": "task_t1", "fail": False, "writes": [w("ewrite", 4, "ascii first "), w("eprint", 5, "refused \u26d4", "\n"), w("os2", 6, "never")]},
+        {"name": "task_t2", "fail": False, "writes": [w("print", 7, "all ascii", "\n"), w("os1", 8, "raw bytes \u00e9 pass")]},
+    ]
+    out.append({"idx": -20, "tasks": raising, "method": "tee-sys", "hashseed": 11, "unbuffered": True, "picky_real": True})
     return out
 
 
@@ -393,7 +422,7 @@ def check_c14(ctx, drv, case, obs) -> None:
     replay = {"layer": "c14", "case": case}
     for kind, msg in oracle_c14(case, obs):
         ctx.violation(f"{kind}: {msg}", replay)
-    if drv is not None and "raised" not in obs and {r["name"] for r in obs["reports"]} == {t["name"] for t in case["tasks"]}:
+    if drv is not None and not case.get("picky_real") and "raised" not in obs and {r["name"] for r in obs["reports"]} == {t["name"] for t in case["tasks"]}:
         for msg in model_c14(drv, case, obs):
             ctx.disagreement(msg, replay)
         ctx.traces_validated += 1
@@ -522,6 +551,20 @@ def task_warns():
     warnings.warn("a user warning", UserWarning, stacklevel=1)
     warnings.warn("a deprecation warning", DeprecationWarning, stacklevel=1)
 ''', "10::1", {"task_warns": 1}),
+    # a second project root (own configuration file, own .pytask directory and database) with products
+    "own": ("task_own.py", '''\
+from pathlib import Path
+
+
+def task_p(produces=Path("p.txt")):
+    print("p writes")
+    produces.write_text("p")
+
+
+def task_q(path=Path("p.txt"), produces=Path("q.txt")):
+    print("q writes")
+    produces.write_text(path.read_text() + "q")
+''', "11::1.2", {"task_p": 1, "task_q": 2}),
     "cyc": ("task_cyc.py", '''\
 from pathlib import Path
 
@@ -536,12 +579,29 @@ def task_y(path=Path("x.txt"), produces=Path("y.txt")):
 }
 
 
+PDB_MODULE = '''\
+"""non-interactive debugger class handed to pytask as pdbcls: every prompt is answered with `continue`"""
+import io
+import pdb
+
+
+class ContPdb(pdb.Pdb):
+    def __init__(self, *a, **k):
+        k.pop("stdin", None)
+        k.pop("stdout", None)
+        super().__init__(*a, stdin=io.StringIO("continue\\n" * 200), stdout=io.StringIO(), **k)
+        self.use_rawinput = False
+'''
+
+
 def write_seq_project(root: Path) -> None:
     root.mkdir(parents=True, exist_ok=True)
     (root / "pyproject.toml").write_text('[tool.pytask.ini_options]\nmarkers = {mine = "a marker of this project"}\n')
     for sub, (fname, src, _, _) in SUBS.items():
         (root / sub).mkdir()
         (root / sub / fname).write_text(src)
+    (root / "c15pdb.py").write_text(PDB_MODULE)
+    (root / "own" / "pyproject.toml").write_text("[tool.pytask.ini_options]\n")
     # a project root of its own: its configuration file turns user warnings into errors
     (root / "warncfg" / "pyproject.toml").write_text('[tool.pytask.ini_options]\nfilterwarnings = ["error::UserWarning"]\n')
 
@@ -549,7 +609,7 @@ def write_seq_project(root: Path) -> None:
 def gen_seq(rng, idx: int, n=(2, 8)) -> dict:
     builds = []
     for _ in range(rng.randint(*n)):
-        sub = rng.choice(["ok", "ok", "dec", "fail", "badimp", "cyc", "marked", "marked", "marked", "empty", "warn", "warn", "warncfg"])
+        sub = rng.choice(["ok", "ok", "dec", "fail", "badimp", "cyc", "marked", "marked", "marked", "empty", "warn", "warn", "warncfg", "own", "own"])
         kw = {"capture": rng.choice(METHODS), "verbose": rng.choice([0, 1, 1, 2])}
         r = rng.random()
         if r < 0.2:
@@ -572,6 +632,12 @@ def gen_seq(rng, idx: int, n=(2, 8)) -> dict:
         if rng.random() < 0.35:
             kw["filterwarnings"] = rng.choice([["error::UserWarning"], ["ignore::DeprecationWarning"],
                                                ["error::DeprecationWarning", "ignore::UserWarning"], ["ignore"]])
+        if sub in ("fail", "marked", "ok", "warn") and rng.random() < 0.2:
+            # post-mortem debugging of failing tasks, answered by a non-interactive debugger class
+            kw["pdb"] = True
+            kw["pdbcls"] = ["c15pdb", "ContPdb"]
+        if rng.random() < 0.07:
+            extra["corrupt_hashes"] = True   # a broken .pytask/file_hashes.json
         if rng.random() < 0.07:
             extra["corrupt_db"] = True   # configuration fails in database.pytask_post_parse
         if rng.random() < 0.2:
@@ -587,7 +653,13 @@ def gen_seq(rng, idx: int, n=(2, 8)) -> dict:
         # a task that closes sys.stdout while it is captured; last build of the process (it may wreck the interpreter's streams),
         # never with capture=no (there it would close the caller's own stream)
         builds.append({"sub": "closer", "kw": {"capture": rng.choice(["sys", "tee-sys", "fd"]), "verbose": 1, "force": True}})
-    return {"idx": idx, "builds": builds, "hashseed": rng.randrange(0, 1000), "tty": rng.random() < 0.25}
+    seq = {"idx": idx, "builds": builds, "hashseed": rng.randrange(0, 1000), "tty": rng.random() < 0.25}
+    r = rng.random()
+    if r < 0.12 and not seq["tty"]:
+        seq["init"] = "close_fd0"
+    elif r < 0.2 and not seq["tty"]:
+        seq["init"] = "close_stdin"
+    return seq
 
 
 def _run_worker(spec: dict, d: Path, tag: str, hashseed: int, tty: bool = False) -> dict:
@@ -641,14 +713,25 @@ def run_seq(seq: dict, fresh: bool = True) -> dict:
     d = common.scratch_dir("c15")
     try:
         write_seq_project(d / "A")
-        one = _run_worker({"root": str(d / "A"), "builds": seq["builds"]}, d, "seq", seq["hashseed"], tty=bool(seq.get("tty")))
-        out = {"inproc": one, "fresh": []}
-        if fresh:
-            write_seq_project(d / "B")
+        write_seq_project(d / "B")
+        tty = bool(seq.get("tty"))
+
+        def inproc():
+            return _run_worker({"root": str(d / "A"), "builds": seq["builds"], "init": seq.get("init")}, d, "seq", seq["hashseed"], tty=tty)
+
+        def chain():
+            # the same builds, one fresh process each, over a copy of the project (the two chains run side by side)
+            out = []
             for k, b in enumerate(seq["builds"]):
-                r = _run_worker({"root": str(d / "B"), "builds": [b]}, d, f"f{k}", seq["hashseed"], tty=bool(seq.get("tty")))
-                out["fresh"].append(r["builds"][0])
-        return out
+                r = _run_worker({"root": str(d / "B"), "builds": [b], "init": seq.get("init")}, d, f"f{k}", seq["hashseed"], tty=tty)
+                out.append(r["builds"][0])
+            return out
+
+        if not fresh:
+            return {"inproc": inproc(), "fresh": []}
+        with ThreadPoolExecutor(max_workers=2) as ex:
+            f1, f2 = ex.submit(inproc), ex.submit(chain)
+            return {"inproc": f1.result(), "fresh": f2.result()}
     finally:
         shutil.rmtree(d, ignore_errors=True)
 
@@ -675,16 +758,22 @@ def oracle_c15(seq: dict, obs: dict) -> list:
     bad = []
     imported = set()           # sub-projects whose module this process has imported (F7: sys.modules keeps it)
     for k, (b, rec) in enumerate(zip(seq["builds"], obs["inproc"]["builds"])):
-        tag = f"build {k} ({b['sub']}, {b['kw']}" + (f", ctl={b['ctl']}" if "ctl" in b else "") + (", corrupt database" if b.get("corrupt_db") else "") + ")"
+        tag = f"build {k} ({b['sub']}, {b['kw']}" + (f", ctl={b['ctl']}" if "ctl" in b else "") + (", corrupt database" if b.get("corrupt_db") else "") + (", broken file_hashes.json" if b.get("corrupt_hashes") else "") + ")"
         cls = closer_class(b, rec)
         if "raised" in rec:
             bad.append(("returns", f"{tag}: pytask.build raised {rec['raised']}", cls))
         bef, aft = rec["before"], rec["after"]
+        sqlite_filled = 0
         method = b["kw"]["capture"]
         configured = rec.get("exit") != 2
         # --- standard streams: descriptors 0-2 and the Python objects
         for i, nm in enumerate(("stdin", "stdout", "stderr")):
             if aft["stat"][i] != bef["stat"][i]:
+                if bef["stat"][i] is None and aft["fds"].get(str(i)) == "/dev/null":
+                    # not pytask: SQLite never keeps a database on descriptors 0-2 — when open() hands it one of them it puts
+                    # /dev/null there (os_unix.c robust_open). Happens with every capture method, also with an in-memory database.
+                    sqlite_filled += 1
+                    continue
                 bad.append(("streams", f"{tag}: descriptor {i} refers to {aft['fds'].get(str(i))!r} after the build, before {bef['fds'].get(str(i))!r}",
                             cls if cls == "F6c" else None))
             if aft["std_same"][i] != bef["std_same"][i] or (not aft["std_same"][i] and aft["std_type"][i] != bef["std_type"][i]):
@@ -694,7 +783,9 @@ def oracle_c15(seq: dict, obs: dict) -> list:
         # --- the rest of the process state
         for key, what in (("cwd", "working directory"), ("filters", "warnings.filters"), ("set_trace_same", "pdb.set_trace"),
                           ("collected", "COLLECTED_TASKS"), ("prov", "TASKS_WITH_PROVISIONAL_NODES"), ("pdb_saved", "PytaskPDB._saved"),
-                          ("report_vars", "ExecutionReport/Traceback class variables")):
+                          ("report_vars", "ExecutionReport/Traceback class variables"),
+                          ("live_stack", "live displays on rich's global console"),
+                          ("pdb_state", "PytaskPDB class attributes (_pluginmanager is None, _config is None, _wrapped_pdb_cls is None, _recursive_debug)")):
             if key == "report_vars":
                 # claimed only for builds that passed configuration (pytask_unconfigure ran): then they are back at the defaults,
                 # whatever an earlier build with a failing configuration left behind
@@ -706,7 +797,7 @@ def oracle_c15(seq: dict, obs: dict) -> list:
                 # F6c: the exception escapes before pytask_unconfigure runs, so nothing is restored
                 bad.append(("misc", f"{tag}: {what} changed: {bef[key]!r} -> {aft[key]!r}", cls if cls == "F6c" else None))
         # --- open descriptors: constant from the second build on
-        if k >= 1 and len(aft["fds"]) > len(bef["fds"]):
+        if k >= 1 and len(aft["fds"]) > len(bef["fds"]) + sqlite_filled:
             new = [l for fd, l in aft["fds"].items() if fd not in bef["fds"] or bef["fds"][fd] != l]
             grown_by = len(aft["fds"]) - len(bef["fds"])
             bad.append(("leak", f"{tag}: {grown_by} more open descriptors than before this build ({len(bef['fds'])} -> {len(aft['fds'])}); new: {sorted(new)}",
@@ -739,6 +830,8 @@ def oracle_c15(seq: dict, obs: dict) -> list:
 
 def model_c15(drv, seq: dict, obs: dict) -> list:
     out = []
+    if seq.get("init"):
+        return out   # a process without descriptor 0: what happens to it is SQLite's doing (see oracle_c15), outside the model
     ini = obs["inproc"]["initial"]
     n0 = len(ini["fds"])
     # initial descriptor table: 0,1,2 are three distinct pipes; every other open descriptor gets a file of its own
@@ -805,7 +898,7 @@ def model_c15(drv, seq: dict, obs: dict) -> list:
 
 
 def canon_c15(seq: dict) -> list:
-    return [[b["sub"], sorted(b["kw"].items()), b.get("ctl"), bool(b.get("corrupt_db"))] for b in seq["builds"]] + (["tty"] if seq.get("tty") else [])
+    return [[b["sub"], sorted(b["kw"].items()), b.get("ctl"), bool(b.get("corrupt_db")), bool(b.get("corrupt_hashes"))] for b in seq["builds"]] + (["tty"] if seq.get("tty") else []) + ([seq["init"]] if seq.get("init") else [])
 
 
 def corpus_c15() -> list:
@@ -816,6 +909,19 @@ def corpus_c15() -> list:
         return {"sub": sub, "kw": kw}
     return [
         {"idx": -1, "hashseed": 1, "builds": [b("ok", force=True)] * 6},                                   # F6 witness (fixed): leak trend, stdin
+        # two projects with databases of their own, alternating (A, B, A, B): skipped-because-unchanged must be judged against the right one
+        {"idx": -16, "hashseed": 16, "builds": [b("ok", capture="no"), b("own", capture="no"), b("ok", capture="no"), b("own", capture="fd"),
+                                                b("warncfg", capture="sys"), b("ok", capture="fd")]},
+        # a broken cache of file hashes, under every capture method
+        {"idx": -17, "hashseed": 17, "builds": [b("ok"), dict(b("ok", capture="fd"), corrupt_hashes=True), dict(b("own", capture="sys"), corrupt_hashes=True),
+                                                dict(b("ok", capture="tee-sys"), corrupt_hashes=True), b("ok", capture="no")]},
+        # F40 witness: post-mortem debugging at verbose=0 / the cached debugger wrapper class of an earlier build
+        {"idx": -13, "hashseed": 13, "builds": [b("fail", capture="sys", verbose=1, pdb=True, pdbcls=["c15pdb", "ContPdb"]),
+                                                b("fail", capture="sys", verbose=0, pdb=True, pdbcls=["c15pdb", "ContPdb"]),
+                                                b("fail", capture="fd", verbose=1, pdb=True, pdbcls=["c15pdb", "ContPdb"]), b("ok", capture="no")]},
+        # the caller has no standard input
+        {"idx": -14, "hashseed": 14, "init": "close_fd0", "builds": [b("ok", capture="fd", force=True), b("ok", capture="sys", force=True), b("fail", capture="fd")]},
+        {"idx": -15, "hashseed": 15, "init": "close_stdin", "builds": [b("ok", capture="fd", force=True), b("ok", capture="no", force=True)]},
         # the warnings plugin switched off while filters are configured (build argument / configuration file), then an unrelated
         # project whose task only warns
         {"idx": -12, "hashseed": 12, "builds": [b("ok", capture="no", disable_warnings=True, filterwarnings=["error::UserWarning"], force=True),
